@@ -116,4 +116,72 @@ split; [|split; [|split]].
   by rewrite divr_gt0 ?exprn_gt0.
 Qed.
 
+Lemma col_mulmx m n p (A : 'M[R]_(m, n)) (B : 'M[R]_(n, p)) j : col j (A *m B) = A *m col j B.
+Proof. by apply/matrixP=> i k; rewrite !mxE; apply: eq_bigr => t _; rewrite mxE. Qed.
+
+(* the WHOLE covariance of the draws, given an orthonormal eigenbasis of P (columns of U, eigenvalues l):
+   C = U diag(eps_var prec eps l_j) U^T *)
+Theorem gmrf_eps_cov_spectral n m (D : 'M[R]_(m, n)) (T : 'M[R]_(n, m)) (U : 'M[R]_n) (l : 'rV[R]_n) (r prec eps : R) :
+  let P := D^T *m D in let Pe := P + eps%:M in let C := T *m T^T in
+  0 < eps -> 0 < prec -> (forall j, 0 <= l 0 j) -> r * r = prec -> (r *: Pe) *m T = D^T ->
+  U *m U^T = 1%:M -> P *m U = U *m diag_mx l ->
+  C = U *m diag_mx (\row_j eps_var prec eps (l 0 j)) *m U^T.
+Proof.
+move=> P Pe C He Hp Hl Hr HT HU HPU.
+have Hcol j : P *m col j U = l 0 j *: col j U.
+  rewrite -col_mulmx HPU (mul_mx_diag U l); apply/matrixP=> i k; rewrite !mxE mulrC //.
+have CU : C *m U = U *m diag_mx (\row_j eps_var prec eps (l 0 j)).
+  apply/matrixP=> i j.
+  have H := gmrf_eps_eigen_real He Hp (Hl j) Hr HT (Hcol j).
+  have : (C *m col j U) i 0 = (eps_var prec eps (l 0 j) *: col j U) i 0 by rewrite H.
+  rewrite -col_mulmx [LHS]mxE [RHS]mxE [(col j U) i 0]mxE => ->.
+  by rewrite mul_mx_diag !mxE mulrC.
+by rewrite -[LHS]mulmx1 -HU mulmxA CU.
+Qed.
+
+(* ... and the documented law: with doc_j = 1/(prec l_j) on the range and 0 on the null space, Cdoc = U diag(doc) U^T is a
+   generalised inverse of the documented precision prec P (so Cdoc - C = U diag(doc_j - eps_var_j) U^T with the entries bounded
+   by eps_var_deviation) *)
+Theorem gmrf_doc_cov_spectral n (P U : 'M[R]_n) (l : 'rV[R]_n) (prec : R) :
+  prec != 0 -> U^T *m U = 1%:M -> P = U *m diag_mx l *m U^T ->
+  let doc := \row_j (if l 0 j == 0 then 0 else doc_var prec (l 0 j)) in
+  let Cdoc := U *m diag_mx doc *m U^T in
+  (prec *: P) *m Cdoc *m (prec *: P) = prec *: P.
+Proof.
+move=> Hp HU -> doc Cdoc; rewrite /Cdoc.
+have E (A B : 'M[R]_n) : (U *m A *m U^T) *m (U *m B *m U^T) = U *m (A *m B) *m U^T.
+  by rewrite !mulmxA -(mulmxA (U *m A)) HU mulmx1.
+rewrite -!scalemxAl -scalemxAr E E; congr (_ *: _).
+rewrite scalemxAl [prec *: (U *m _)]scalemxAr; congr (_ *m _ *m _).
+rewrite !mulmx_diag; apply/matrixP=> i j; rewrite !mxE.
+case: (i == j); rewrite ?mulr0n ?mulr0 // !mulr1n.
+case: ifPn => [/eqP ->|N]; first by rewrite !mulr0.
+rewrite /doc_var; move: (l 0 i) N => x N; by field; rewrite N Hp.
+Qed.
+
+(* the distance between the documented covariance and that of the draws, in the eigenbasis: zero on the null space of P,
+   between 0 and doc_j * 2 eps / l_j on the range *)
+Theorem gmrf_eps_distance n m (D : 'M[R]_(m, n)) (T : 'M[R]_(n, m)) (U : 'M[R]_n) (l : 'rV[R]_n) (r prec eps : R) :
+  let P := D^T *m D in let Pe := P + eps%:M in let C := T *m T^T in
+  let doc := \row_j (if l 0 j == 0 then 0 else doc_var prec (l 0 j)) in
+  let Cdoc := U *m diag_mx doc *m U^T in
+  let delta := \row_j (doc 0 j - eps_var prec eps (l 0 j)) in
+  0 < eps -> 0 < prec -> (forall j, 0 <= l 0 j) -> r * r = prec -> (r *: Pe) *m T = D^T ->
+  U *m U^T = 1%:M -> P *m U = U *m diag_mx l ->
+  Cdoc - C = U *m diag_mx delta *m U^T /\
+  forall j, (l 0 j = 0 -> delta 0 j = 0) /\
+            (0 < l 0 j -> 0 < delta 0 j /\ delta 0 j < doc_var prec (l 0 j) * (2%:R * eps / l 0 j)).
+Proof.
+move=> P Pe C doc Cdoc delta He Hp Hl Hr HT HU HPU; split.
+  rewrite /Cdoc /C (gmrf_eps_cov_spectral He Hp Hl Hr HT HU HPU) -mulmxBl -mulmxBr -raddfB /=.
+  by congr (_ *m diag_mx _ *m _); apply/rowP=> j; rewrite !mxE.
+move=> j; rewrite /delta !mxE; split=> [->|Lj].
+  by rewrite eqxx /eps_var mul0r subrr.
+rewrite (gt_eqF Lj).
+have [E [R0 [R1 _]]] := eps_var_deviation Hp He Lj.
+have Dp : 0 < doc_var prec (l 0 j) by rewrite /doc_var divr_gt0 ?mulr_gt0 // ltr01.
+rewrite E -[X in X - _]mulr1 -mulrBr opprB addrC subrK; split; first by rewrite mulr_gt0.
+by rewrite ltr_pmul2l.
+Qed.
+
 End EpsReal.
